@@ -241,7 +241,7 @@ func runScenario(idx int, scn *scenario, root string) {
 	b := &bus{}
 	sim.GlobalSink.Drain()
 	sim.GlobalSink.OnEach(func(e verifhook.Event) {
-		if strings.HasPrefix(e.Kind, "queue.") {
+		if strings.HasPrefix(e.Kind, "queue.") && e.Kind != "queue.watcher-wait" {
 			b.add(e)
 		}
 	})
@@ -753,6 +753,10 @@ func main() {
 	for i := lo; i < hi; i++ {
 		r := args.CaseRand(i)
 		runOne(i, args, genScenario(r, i%5 == 4), v, root)
+	}
+	llo, lhi := args.Share(args.Pick(16, 320))
+	for i := llo; i < lhi; i++ {
+		lateCase(i, args, args.CaseRand(2_000_000+i), v, root)
 	}
 	// (expired_in_queue, rejected_no_slot, released_by_shutdown are required over the whole run by
 	// the driver: "require_counters" in checks.d/C06.json)
